@@ -392,7 +392,7 @@ class Metadata(CbMixin, ProgMixin):
                 self._copy_empty(entry, filemap, dest)
                 continue
             candidates = sorted(verified.get(entry["full"], ()))
-            dest_path = os.path.join(dest, entry["full"])
+            dest_path = os.path.realpath(os.path.join(dest, entry["full"]))
             if candidates and _is_within(dest, dest_path):
                 copypath(candidates[0], dest_path)
                 self.cb(entry["full"], dest_path, self.num_pieces)
@@ -421,7 +421,8 @@ class Metadata(CbMixin, ProgMixin):
                 if size == length:
                     hasher = HasherV2(path, self.piece_length, True)
                     if entry["root"] == hasher.root:
-                        dest_path = os.path.join(dest, entry["full"])
+                        dest_path = os.path.realpath(
+                            os.path.join(dest, entry["full"]))
                         if _is_within(dest, dest_path):
                             copypath(path, dest_path)
                             self._update()
@@ -441,7 +442,7 @@ class Metadata(CbMixin, ProgMixin):
         dest : str
             destiantion path
         """
-        dest_path = os.path.join(dest, entry["full"])
+        dest_path = os.path.realpath(os.path.join(dest, entry["full"]))
         for path, size in filemap.get(entry["filename"], []):
             if size == 0 and _is_within(dest, dest_path):
                 if not os.path.exists(dest_path):
